@@ -29,3 +29,9 @@ trait PrivateAsync {
 pub trait AsyncNoSend {
     async fn rc(&self, a: std::rc::Rc<u8>) -> std::rc::Rc<u8>;
 }
+
+/// lifetime parameters with bounds, a type parameter bounded by a lifetime
+#[entrait(unimock = false)]
+pub trait Scoped<'short, 'long: 'short, T: 'long + Clone> {
+    fn pick(&self, a: &'short T, b: &'long T) -> &'short T;
+}
